@@ -1,5 +1,9 @@
 use vharness::core::{replay_prop, run_prop, RunOpts, Tier};
 
+// per-thread live-heap accounting for the retention monitor (C10); forwards to the system allocator
+#[global_allocator]
+static ALLOC: vharness::retention::CountingAlloc = vharness::retention::CountingAlloc;
+
 fn main() {
     let args: Vec<String> = std::env::args().collect();
     if args.len() < 2 {
@@ -95,6 +99,25 @@ fn main() {
         }
         println!("selftest: {n} docs, {bad} mismatches");
         std::process::exit(if bad > 0 { 2 } else { 0 });
+    }
+    if id == "retention" {
+        // debug aid: table of retained heap bytes per stream kind / selector set
+        use vharness::retention::*;
+        println!("counting allocator installed: {}", installed());
+        let sets: &[&[&str]] = &[&[], &["*"], &["div span", "p"], &["*:nth-child(2)"], &["*:nth-of-type(2)"], &["main > *", "[a]"]];
+        for &k in STREAMS {
+            for set in sets {
+                let sel: Vec<String> = set.iter().map(|s| s.to_string()).collect();
+                let a = retained_after(&sel, true, 1 << 20, &stream(k, 1500), 1000);
+                let b = retained_after(&sel, true, 1 << 20, &stream(k, 6000), 1000);
+                println!("{k:?} {set:?}: n=1500 -> {a:?}, n=6000 -> {b:?}");
+            }
+        }
+        let ser = retained_series(&["*:nth-child(2)".to_string()], true, 1 << 20, &stream(Stream::VoidsAndForeign, 6000), 1000);
+        println!("series VoidsAndForeign nth-child: last {:?} max {:?} len {}", &ser[ser.len()-4..], ser.iter().max(), ser.len());
+        let ser = retained_series(&["*".to_string()], true, 1 << 20, &stream(Stream::ClosedByParent, 6000), 1000);
+        println!("series ClosedByParent *: last {:?} max {:?} argmax {:?}", &ser[ser.len()-4..], ser.iter().max(), ser.iter().enumerate().max_by_key(|x| *x.1).map(|x| x.0));
+        return;
     }
     vharness::engine::install_quiet_panic_hook();
     if id == "C15" {
